@@ -348,7 +348,7 @@ pub fn script_from_bytes(data: &[u8]) -> (crate::sim::Script, bool) {
         steps.push(decode_step(&mut c, &mut k, &mut replies, 0, faulty, &mut fault_used));
     }
     (
-        Script { sched_seed, seg, replies, steps, max_write, picture: None, broken_pipe: ctrl & 0x40 != 0, greeting: None, lazy_events: false, version: None, vectored: false },
+        Script { sched_seed, seg, replies, steps, max_write, picture: None, broken_pipe: ctrl & 0x40 != 0, greeting: None, lazy_events: false, version: None, vectored: false, events_polled_last: false },
         faulty && fault_used,
     )
 }
